@@ -38,6 +38,11 @@ Section Chain.
     {| r_states := select dS (map fst all) idx; r_accepts := acc;
        r_accepted := count_true acc; r_n := length idx |}.
 
+  (** n_chains > 1: the same computation mapped over the chains, each with its own per-step
+      randomness (jax.vmap over keys); the results carry a leading chain axis. *)
+  Definition chains (init : S) (rss : list (list R)) (burn thin : nat) : list result :=
+    map (fun rs => chain init rs burn thin) rss.
+
   (** The state after [k] kernel steps. *)
   Fixpoint iterate (s : S) (rs : list R) (k : nat) : S :=
     match k, rs with
@@ -45,5 +50,5 @@ Section Chain.
     | _, _ => s
     end.
 End Chain.
-Arguments run {S R}. Arguments chain {S R}. Arguments iterate {S R}. Arguments select {A}.
+Arguments run {S R}. Arguments chain {S R}. Arguments chains {S R}. Arguments iterate {S R}. Arguments select {A}.
 Arguments r_states {S}. Arguments r_accepts {S}. Arguments r_accepted {S}. Arguments r_n {S}.
